@@ -271,10 +271,10 @@ RE_STATS = re.compile(r'^<<"STATS", (\d+), (\d+), (\d+), (\d+)>>')
 
 
 def _validate_chunk(args):
-    module, chunk_path, d, idx, jopts = args
+    module, chunk_path, d, idx, jopts, kf = args
     cfg = os.path.join(SPEC, module + ".cfg")
     out = os.path.join(d, "val-%04d.out" % idx)
-    rc = _tlc(module, cfg, os.path.join(d, "md-%04d" % idx), out, 1, env={"TRACE": chunk_path},
+    rc = _tlc(module, cfg, os.path.join(d, "md-%04d" % idx), out, 1, env={"TRACE": chunk_path, "KF": kf},
               jopts="-Xmx3g -Dtlc2.tool.queue.IStateQueue=StateDeque " + jopts, timeout=3600)
     text = open(out, errors="replace").read()
     mism, known, stats = [], [], None
@@ -301,7 +301,8 @@ def _validate_chunk(args):
     return idx, mism, known, stats, distinct, generated, toolerr
 
 
-def validate(ctx, module, trace, label, key_fields=None, group=1, jopts="", sample=3, distinct_key=None):
+def validate(ctx, module, trace, label, key_fields=None, group=1, jopts="", sample=3, distinct_key=None, kf="none",
+             chunk=None):
     """TLC trace validation. `group`: events per case are contiguous; chunks are cut only at
     lines whose 'ev' is 'Begin' when group='begin'."""
     d = os.path.dirname(trace)
@@ -311,7 +312,7 @@ def validate(ctx, module, trace, label, key_fields=None, group=1, jopts="", samp
     # cut into chunks
     chunks, cur = [], []
     for ln in lines:
-        if len(cur) >= CHUNK and (group == 1 or ln.startswith('{"ev":"Begin"')):
+        if len(cur) >= (chunk or CHUNK) and (group == 1 or is_begin(ln)):
             chunks.append(cur)
             cur = []
         cur.append(ln)
@@ -322,7 +323,7 @@ def validate(ctx, module, trace, label, key_fields=None, group=1, jopts="", samp
         p = os.path.join(d, "chunk-%04d.ndjson" % i)
         with open(p, "w") as f:
             f.write("\n".join(ch) + "\n")
-        jobs.append((module, p, d, i, jopts))
+        jobs.append((module, p, d, i, jopts, kf))
         offs.append(off)
         off += len(ch)
     t = time.time()
@@ -374,10 +375,14 @@ def validate(ctx, module, trace, label, key_fields=None, group=1, jopts="", samp
     return nm
 
 
+def is_begin(ln):
+    return '"ev":"Begin"' in ln or '"ev":"Inadm"' in ln
+
+
 def count_cases(lines, group):
     if group == 1:
         return len(lines)
-    return sum(1 for ln in lines if ln.startswith('{"ev":"Begin"'))
+    return sum(1 for ln in lines if is_begin(ln))
 
 
 def case_events(chunk, i, group):
@@ -385,10 +390,10 @@ def case_events(chunk, i, group):
     if group == 1:
         return [json.loads(chunk[i])]
     a = i
-    while a > 0 and not chunk[a].startswith('{"ev":"Begin"'):
+    while a > 0 and not is_begin(chunk[a]):
         a -= 1
     b = i + 1
-    while b < len(chunk) and not chunk[b].startswith('{"ev":"Begin"'):
+    while b < len(chunk) and not is_begin(chunk[b]):
         b += 1
     return [json.loads(x) for x in chunk[a:b]]
 
